@@ -259,9 +259,71 @@ def check_nav(case, ctx):
     return fails
 
 
+def check_floyd_long(case, ctx):
+    """very elongated networks (chains, rings, combs of 257..300 nodes): shortest paths of more than 255 connections.
+    The exact-rational oracle is too slow here; lengths are dyadic, so float sums are exact and scipy's Dijkstra is the reference."""
+    from scipy.sparse.csgraph import shortest_path
+    W = gen.layout(np.array(case["W"], dtype=float), case.get("order"))
+    n = len(W)
+    fails = []
+    ctx.label("floyd:long-" + case["family"])
+    ref = shortest_path(np.where(W != 0, W, 0.0), method="D", directed=True)
+    o = ctx.call(bct.distance_wei_floyd, gen.layout(W.copy(), case.get("order")), timeout=60)
+    if o.status == "timeout":
+        return fails
+    if not o.ok:
+        return [Failure("crash:distance_wei_floyd(long):%s" % o.exc_name(), repr(o.exc)[:200], case)]
+    SPL, hops, Pmat = o.value
+    SPL = np.asarray(SPL, dtype=float)
+    hops = np.asarray(hops)
+    off = ~np.eye(n, dtype=bool)
+    if not np.array_equal(SPL[off], ref[off]):
+        u, v = np.argwhere((SPL != ref) & off)[0]
+        fails.append(Failure("distance_wei_floyd:long-network-distance-wrong", "(%d,%d): %r, Dijkstra gives %r" % (u, v, SPL[u, v], ref[u, v]), case))
+        return fails
+    maxh = 0
+    for s_ in case["sources"]:
+        for t in range(n):
+            if t == s_:
+                continue
+            op = ctx.call(bct.retrieve_shortest_path, s_, t, hops, Pmat)
+            if not op.ok:
+                if op.status != "timeout":
+                    fails.append(Failure("crash:retrieve_shortest_path:%s" % op.exc_name(), "(%d,%d) on a %d-node %s: %r" % (s_, t, n, case["family"], op.exc), case))
+                    return fails
+                continue
+            path = [int(v) for v in np.asarray(op.value).ravel()] if len(op.value) else []
+            if not np.isfinite(ref[s_, t]):
+                if path:
+                    fails.append(Failure("retrieve_shortest_path:path-returned-for-unreachable-target", "(%d,%d)" % (s_, t), case))
+                    return fails
+                continue
+            bad = None
+            if not path:
+                bad = "is empty although the target is reachable (distance %r)" % ref[s_, t]
+            elif path[0] != s_ or path[-1] != t:
+                bad = "runs from %d to %d" % (path[0], path[-1])
+            elif any(W[a, b] == 0 for a, b in zip(path, path[1:])):
+                bad = "uses a non-existent connection"
+            elif len(path) - 1 != hops[s_, t]:
+                bad = "has %d hops, reported %r" % (len(path) - 1, hops[s_, t])
+            elif sum(W[a, b] for a, b in zip(path, path[1:])) != SPL[s_, t]:
+                bad = "has total length %r, reported %r" % (sum(W[a, b] for a, b in zip(path, path[1:])), SPL[s_, t])
+            if bad:
+                fails.append(Failure("retrieve_shortest_path:invalid-path", "(%d,%d) on a %d-node %s: path of %d nodes %s" % (s_, t, n, case["family"], len(path), bad), case))
+                return fails
+            maxh = max(maxh, len(path) - 1)
+    if maxh > 255:
+        ctx.mark_nontrivial({"W": W, "src": case["sources"]})
+        ctx.label("path-longer-than-255-connections")
+    return fails
+
+
 def check(case, ctx):
     if case.get("nav"):
         return check_nav(case, ctx)
+    if case.get("long"):
+        return check_floyd_long(case, ctx)
     return check_floyd(case, ctx)
 
 
@@ -297,6 +359,11 @@ def nav_cases(draw):
     n = draw(st.integers(3, 9))
     A = draw(gen.er_adj(n, directed, draw(st.sampled_from(["sparse", "medium", "dense"]))))
     L = draw(gen.weights_for(A, draw(st.sampled_from(["tie", "dyadic", "bin"])), directed))
+    if draw(st.integers(0, 2)) == 0:
+        # self-connections: a walker may "move" to the node it is on, which must then count as a failed navigation in all three outputs
+        dg = draw(st.lists(st.integers(0, 2), min_size=n, max_size=n))
+        for i, v in enumerate(dg):
+            L[i, i] = v / 2.0
     if draw(st.booleans()):
         pts = draw(st.lists(st.tuples(st.integers(0, 6), st.integers(0, 6)), min_size=n, max_size=n))
         P = np.array(pts, dtype=float)
@@ -309,6 +376,41 @@ def nav_cases(draw):
     mh = draw(st.sampled_from([None, None, 1, 2, "n", "2n"]))
     mh = n if mh == "n" else 2 * n if mh == "2n" else mh
     return {"nav": True, "L": L, "D": D, "max_hops": mh, "order": draw(st.sampled_from(gen.ORDERS))}
+
+
+@st.composite
+def long_cases(draw):
+    n = draw(st.integers(258, 300))
+    fam = draw(st.sampled_from(["chain", "ring", "comb", "two-chains"]))
+    if fam == "ring":
+        A = gen.ring_adj(n)
+    elif fam == "two-chains":
+        k = draw(st.integers(1, 20))
+        A = gen.block_diag(gen.path_adj(n - k), gen.path_adj(k))
+    else:
+        A = gen.path_adj(n)
+        if fam == "comb":       # a tooth on every 7th node
+            teeth = list(range(3, n - 20, 7))
+            B = np.zeros((n + len(teeth), n + len(teeth)), dtype=bool)
+            B[:n, :n] = A
+            for q, v in enumerate(teeth):
+                B[v, n + q] = B[n + q, v] = True
+            A = B
+    m = len(A)
+    lens = draw(st.lists(st.sampled_from([1.0, 2.0, 0.5]), min_size=8, max_size=8))
+    W = np.zeros((m, m))
+    for (i, j) in zip(*np.nonzero(np.triu(A))):
+        W[i, j] = W[j, i] = lens[(i + j) % 8]
+    if draw(st.booleans()):
+        # a one-way street in the middle of a chain: the way back does not exist
+        W[m // 3 + 1, m // 3] = 0.0 if fam != "ring" else W[m // 3 + 1, m // 3]
+    sources = [0, n - 1, draw(st.integers(1, n - 2))]
+    if draw(st.booleans()):
+        p = draw(gen.perm(m))
+        W = gen.apply_perm(W, p)
+        inv = np.argsort(np.asarray(p))
+        sources = [int(inv[v]) for v in sources]
+    return {"long": True, "W": W, "family": fam, "sources": sources, "order": draw(st.sampled_from(gen.ORDERS))}
 
 
 _SP = {}
@@ -337,4 +439,5 @@ def units(tier):
         Unit("floyd-random", check, strategy=lambda: floyd_cases(9), examples=(1500, 160000), shards=(8, 16)),
         Unit("navigation", check, strategy=nav_cases, examples=(1000, 96000), shards=(6, 16)),
         Unit("floyd-random-n<=28", check, strategy=lambda: floyd_cases(28), examples=(48, 800), shards=(12, 16)),
+        Unit("floyd-long-n<=320", check, strategy=long_cases, examples=(16, 96), shards=(16, 16)),
     ]
